@@ -42,7 +42,8 @@ def rowOfList {α : Type} [Zero α] (l : List α) : Row α :=
   fun c => a.getD c 0
 
 section basic
-variable {α : Type} [Add α] [Sub α] [Mul α] [Div α] [Zero α] [One α] [NatCast α]
+variable {α : Type} [Add α] [Sub α] [Mul α] [Div α] [Neg α] [Zero α] [One α] [NatCast α]
+  [LT α] [DecidableLT α] [LE α] [DecidableLE α] [Max α] [Min α]
 
 /-- `f 0 + f 1 + … + f (n-1)`, summed from the left -/
 def sumTo : Nat → (Nat → α) → α
@@ -74,8 +75,13 @@ def meanOf (obs : List (L × Row α)) (u : L) : Row α :=
 /-- `x.mean()` over the `P` channels -/
 def rowMean (P : Nat) (x : Row α) : α := sumTo P x / (P : α)
 
-/-- `remove_mean`: `x - x.mean(axis=1, keepdims=True)` -/
+/-- SPEC: the row-centred pattern `x - mean(x)` -/
 def centre (P : Nat) (x : Row α) : Row α := fun c => x c - rowMean P x
+
+/-- `remove_mean` as coded: `measurements - measurements.mean(axis=1, keepdims=True)`; the
+    subtraction is the leaf regenerated from `_parse_input` -/
+def centreC (P : Nat) (x : Row α) : Row α :=
+  fun c => Rsa.Gen.C01.removeMean (x c) (rowMean P x)
 
 def dotP (P : Nat) (x y : Row α) : α := sumTo P (fun c => x c * y c)
 
@@ -108,7 +114,7 @@ def corrSpec (P : Nat) (sqrt : α → α) (a b : Row α) : α :=
 
 /-- `sum_sq + sum_sq.T - 2 * M Mᵀ` -/
 def euclidMat (P : Nat) (M : List (Row α)) : List (List α) :=
-  M.map (fun a => M.map (fun b => dotP P a a + dotP P b b - ((2 : Nat) : α) * dotP P a b))
+  M.map (fun a => M.map (fun b => Rsa.Gen.C01.euclidEntry (dotP P a a) (dotP P b b) (dotP P a b)))
 
 /-- `(M N) Mᵀ` entry for rows `x`, `y` -/
 def mahalKernel (P : Nat) (N : Nat → Nat → α) (x y : Row α) : α :=
@@ -117,7 +123,7 @@ def mahalKernel (P : Nat) (N : Nat → Nat → α) (x y : Row α) : α :=
 /-- `diag(k)[None,:] + diag(k)[:,None] - 2k` -/
 def mahalMat (P : Nat) (N : Nat → Nat → α) (M : List (Row α)) : List (List α) :=
   M.map (fun a => M.map (fun b =>
-    mahalKernel P N b b + mahalKernel P N a a - ((2 : Nat) : α) * mahalKernel P N a b))
+    Rsa.Gen.C01.mahalEntry (mahalKernel P N b b) (mahalKernel P N a a) (mahalKernel P N a b)))
 
 /-- `λ (lg λ)ᵀ` entry -/
 def poissonKernel (P : Nat) (lg : α → α) (x y : Row α) : α :=
@@ -126,19 +132,19 @@ def poissonKernel (P : Nat) (lg : α → α) (x y : Row α) : α :=
 /-- `diag(k)[None,:] + diag(k)[:,None] - k - kᵀ` on already regularised rates -/
 def poissonMat (P : Nat) (lg : α → α) (M : List (Row α)) : List (List α) :=
   M.map (fun a => M.map (fun b =>
-    poissonKernel P lg b b + poissonKernel P lg a a - poissonKernel P lg a b
-      - poissonKernel P lg b a))
+    Rsa.Gen.C01.poissonEntry (poissonKernel P lg b b) (poissonKernel P lg a a)
+      (poissonKernel P lg a b) (poissonKernel P lg b a)))
 
 /-- `ma /= sqrt(einsum('ij,ij->i', ma, ma))` on the centred row -/
 def unitRow (P : Nat) (sqrt : α → α) (x : Row α) : Row α :=
-  let ma := centre P x
+  let ma := centreC P x
   let nrm := sqrt (dotP P ma ma)
   fun c => ma c / nrm
 
 /-- `1 - einsum('ik,jk', ma, ma)` -/
 def corrMat (P : Nat) (sqrt : α → α) (M : List (Row α)) : List (List α) :=
   let U := M.map (unitRow P sqrt)
-  U.map (fun a => U.map (fun b => 1 - dotP P a b))
+  U.map (fun a => U.map (fun b => Rsa.Gen.C01.corrEntry (dotP P a b)))
 
 /-- `_extract_triu_`: row `k` contributes its entries right of the diagonal -/
 def extractTriuAux : Nat → List (List α) → List α
@@ -170,18 +176,21 @@ def rate (pl pw : α) (x : Row α) : Row α := fun c => Rsa.Gen.C01.poissonPrior
     `mahalanobis` receive the flag (`correlation` always centres inside the estimator,
     `poisson` never does). -/
 def prep (P : Nat) (removeMean : Bool) (M : List (Row α)) : List (Row α) :=
-  if removeMean then M.map (centre P) else M
+  if removeMean then M.map (centreC P) else M
 
 /-- condensed dissimilarity vector of the pattern rows `M`, as coded -/
 def distVec (P : Nat) (sqrt lg : α → α) (m : Method α) (removeMean : Bool)
     (M : List (Row α)) : List α :=
   match m with
-  | .euclidean => (extractTriu (euclidMat P (prep P removeMean M))).map (· / (P : α))
-  | .mahalanobis none => (extractTriu (euclidMat P (prep P removeMean M))).map (· / (P : α))
+  | .euclidean =>
+      (extractTriu (euclidMat P (prep P removeMean M))).map (fun x => Rsa.Gen.C01.euclidNorm x P)
+  | .mahalanobis none =>
+      (extractTriu (euclidMat P (prep P removeMean M))).map (fun x => Rsa.Gen.C01.euclidNorm x P)
   | .mahalanobis (some N) =>
-      (extractTriu (mahalMat P N (prep P removeMean M))).map (· / (P : α))
+      (extractTriu (mahalMat P N (prep P removeMean M))).map (fun x => Rsa.Gen.C01.mahalNorm x P)
   | .correlation => extractTriu (corrMat P sqrt M)
-  | .poisson pl pw => (extractTriu (poissonMat P lg (M.map (rate pl pw)))).map (· / (P : α))
+  | .poisson pl pw =>
+      (extractTriu (poissonMat P lg (M.map (rate pl pw)))).map (fun x => Rsa.Gen.C01.poissonNorm x P)
 
 /-- SPEC: the dissimilarity of two mean patterns the property states for each method -/
 def distSpec (P : Nat) (sqrt lg : α → α) (m : Method α) (removeMean : Bool)
@@ -256,6 +265,15 @@ def fromPartials (rs : List (Rdm α L D)) : List L × List (List (Option α)) :=
     else none)))
 
 end build
+
+/-- `_merged_rdm_descriptors` as `calc_rdm` uses it for a list of datasets: every
+    single-dataset RDMs object carries its dataset's descriptors as rdm descriptors; the
+    merged dictionary has one column per name occurring in any dataset, and entry `k` of a
+    column is dataset `k`'s value of that name, `none` (Python `None`) if it has none -/
+def mergeRdmDescs {V : Type} (dss : List (List (String × V))) : List (String × List (Option V)) :=
+  (uniqueFirst (dss.flatMap (fun d => d.map (fun p => p.1)))).map
+    (fun n => (n, dss.map (fun d => d.lookup n)))
+
 
 section top
 variable {α : Type} [Add α] [Sub α] [Mul α] [Div α] [Neg α] [Zero α] [One α] [NatCast α]
